@@ -349,3 +349,31 @@ func SameFunc(a, b *ssa.Function) bool {
 	}
 	return oa == ob
 }
+
+// FuncValueUses lists the instructions of the parent function that use an anonymous function as an operand
+// (as a closure or, when it captures nothing, as a plain function value).
+func FuncValueUses(anon *ssa.Function) []ssa.Instruction {
+	parent := anon.Parent()
+	if parent == nil {
+		return nil
+	}
+	var out []ssa.Instruction
+	Instrs(parent, func(in ssa.Instruction) {
+		for _, op := range in.Operands(nil) {
+			if *op == nil {
+				continue
+			}
+			switch v := (*op).(type) {
+			case *ssa.Function:
+				if v == anon {
+					out = append(out, in)
+				}
+			case *ssa.MakeClosure:
+				if v.Fn == anon {
+					out = append(out, in)
+				}
+			}
+		}
+	})
+	return out
+}
